@@ -225,6 +225,11 @@ def run(chk):
         except RuntimeError:
             chk.count("generator_gave_up")
     chk.judge(chunk=2500)
+    if chk.tier != "quick":
+        # system-level workflows (spec/Pipeline.tla): the steps that belong
+        # to this property's operations
+        from .pipeline import run_pipelines
+        run_pipelines(chk, "C08")
     return chk.finish(
         rule="(a) order_substitutions on every index map of 4 (thorough: 5) "
              "same-space indices into a pool with extra names (chains, cycles, "
